@@ -51,7 +51,9 @@ def deductive(check, tier):
 ALPH = "ab \nＥ"
 STRS = ["x", "", "Ｅ!", "é", "a b"]
 OPS = ["add", "addstr", "raddstr", "mul", "slice", "anyslice", "index", "splice", "splicestr", "append", "join", "split", "splitlines",
-       "ljust", "rjust", "cwna", "nwar", "cwns", "was", "wasl", "upper", "fmtstr", "copy", "linesplit", "strip", "fmtwrap"]
+       "ljust", "rjust", "cwna", "nwar", "cwns", "was", "wasl", "upper", "fmtstr", "copy", "linesplit", "strip", "fmtwrap",
+       # ranges that reach past the end / start beyond it (legal for splice and the FSArray row primitive), repeated values
+       "splice_past", "splicestr_past", "setslice", "setslice_pad", "mul3", "joinself"]
 OBS = {"s": lambda f: f.s, "len": len, "str": str, "width": lambda f: f.width, "repr": repr, "hash": hash}
 
 
@@ -133,7 +135,11 @@ def run_program(seed, steps=8):
                      "nwar": lambda: [f.new_with_atts_removed("fg")], "cwns": lambda: [f.copy_with_new_str("zz")],
                      "was": lambda: [f.width_aware_slice(slice(0, b))], "wasl": lambda: list(f.width_aware_splitlines(2)),
                      "upper": lambda: [f.upper()], "fmtstr": lambda: [fmtstr(f, "red")], "copy": lambda: [f.copy()],
-                     "linesplit": lambda: linesplit(f, 3), "strip": lambda: [f.strip()], "fmtwrap": lambda: [fmtstr(f, bold=False)]}[op]()
+                     "linesplit": lambda: linesplit(f, 3), "strip": lambda: [f.strip()], "fmtwrap": lambda: [fmtstr(f, bold=False)],
+                     "splice_past": lambda: [f.splice(g, a, len(f) + 1 + n)], "splicestr_past": lambda: [f.splice(t, a, len(f) + 2)],
+                     "setslice": lambda: [f.setslice_with_length(a, b, t, len(f) + 3)],
+                     "setslice_pad": lambda: [f.setslice_with_length(len(f) + 1, len(f) + 2, t, len(f) + 4)],
+                     "mul3": lambda: [f * 3], "joinself": lambda: [f.join([f, g, f])]}[op]()
             except (ValueError, IndexError, AssertionError):
                 r = []
             for x in r:
